@@ -223,3 +223,21 @@ claim("C02", "proof",
       "state). Deterministic engine: to rounding (A1 treats doubles as reals).",
       "deductive: symbolic interpretation of clang AST with loop invariants, ghost sums and callee contracts + SMT; bounded stand-in for interface pairing; sanitizer replay battery",
       "DESIGN.md 3/C02")
+
+claim("C08", "proof",
+      "Frame/effect obligations carried along the symbolic interpretation of the real C++: Iterate of the six algorithm classes "
+      "(helpers inlined) reads and writes only fields of its own object and locals - no engine global, no function-local static, "
+      "no clock; any other name is outside the interpreter's model and makes the run undecided rather than pass; every random draw "
+      "takes the object's own generator field, the deterministic engine draws nothing and never touches the generator (seed "
+      "independence); Init seeds that generator with exactly its seed argument and leaves no scalar field unset except those the "
+      "step writes before reading (the step obligations are run with exactly those fields undefined); engineexport_iterate / "
+      "iterate_n / run change the simulation only through Iterate calls on the live object, return the last result (true when "
+      "none), stop after a false result, and the clock is read by run only. Lemma L-schedule (any slicing of a deterministic step "
+      "that is idempotent once complete ends in the same state; extra slices are no-ops) is proved in Lean 4 and re-checked on "
+      "every run; idempotence once complete is C09's obligation on the real Iterate. Python: RDScript.rng_seed keeps the given "
+      "integer or draws one and keeps it; simulate_script calls setup, run until false, get_output, finalize in that order "
+      "(bounded: mock engine, 0..3 slices).",
+      "Bit-identity of floating point and determinism of std::mt19937/distributions for a given state are assumed (A2). That the "
+      "seed and a copy of the script reach the engine / the trajectory is C04's seam obligation; independence from other live "
+      "engine objects does not hold (known finding of C10: one native simulation per process).",
+      "deductive: effect (frame) analysis over the symbolic interpretation of clang AST + SMT; Lean 4 lemma", "DESIGN.md 3/C08")
